@@ -42,12 +42,12 @@ type RType struct {
 }
 
 type RStmt struct {
-	Kind   string `json:"kind"`           // bind | query | querybool | queryint64 | querygeneric | formvalue | formfile | formjson | decoy
-	Name   string `json:"name,omitempty"` // parameter / form field name (a string constant expression)
-	Type   string `json:"type,omitempty"` // Go type text (bind target, formjson destination, generic type argument)
+	Kind   string `json:"kind"`              // bind | query | querybool | queryint64 | querygeneric | formvalue | formfile | formjson | decoy
+	Name   string `json:"name,omitempty"`    // parameter / form field name (a string constant expression)
+	Type   string `json:"type,omitempty"`    // Go type text (bind target, formjson destination, generic type argument)
 	ViaPkg bool   `json:"via_pkg,omitempty"` // querygeneric: the helper of the imported package is called (inner.QueryParamInt[T])
-	Form   string `json:"form"`           // define | assign | blank | iferr | pair (two query params in one assignment)
-	Ptr    bool   `json:"ptr,omitempty"`  // bind through a pointer variable instead of &value
+	Form   string `json:"form"`              // define | assign | blank | iferr | pair (two query params in one assignment)
+	Ptr    bool   `json:"ptr,omitempty"`     // bind through a pointer variable instead of &value
 	Method bool   `json:"method,omitempty"`
 	Name2  string `json:"name2,omitempty"` // second parameter of a pair
 	ByRef  bool   `json:"byref,omitempty"` // name given through a constant instead of a literal
